@@ -2,6 +2,7 @@
 kind combination and discharge them."""
 import ast
 import hashlib
+import os
 import time
 import traceback
 
@@ -278,12 +279,13 @@ def frame_equal(I, a, b, seen=None):
 def make_run(world, c, combo, use_contracts, spec_builtins):
     f = target_funcref(world, c)
     unwind = {(c.qualname, k): n for k, n in c.unwind.items()}
-    for oc in use_contracts.values():
+    used = [k for v in use_contracts.values() for k in (v if isinstance(v, list) else [v])]
+    for oc in used:
         for k, n in oc.unwind.items():
             unwind.setdefault((oc.qualname, k), n)
     invs = {(c.qualname, k): v for k, v in c.invariants.items()}
     models = dict(c.symlist_models)
-    for oc in use_contracts.values():
+    for oc in used:
         for k, v in oc.symlist_models.items():
             models.setdefault(k, v)
 
@@ -381,7 +383,10 @@ def verify_combo(world, c, combo, use_contracts, spec_builtins):
         out['budget'] = str(e)
         return out
     seen = set()
+    first_only = bool(os.environ.get('PYVC_CANARY_FIRST'))
     for st, outcome in results:
+        if first_only and any(i['result'] != 'unsat' for i in out['instances']):
+            break
         out['paths'] += 1
         for a in st.assumed:
             if a not in out['assumed']:
@@ -419,6 +424,8 @@ def verify_combo(world, c, combo, use_contracts, spec_builtins):
                         inst['inputs_error'] = repr(e)
                 inst['outcome'] = outcome
             out['instances'].append(inst)
+            if first_only and inst['result'] != 'unsat':
+                break
     out['time_s'] = round(time.time() - t0, 3)
     return out
 
